@@ -112,7 +112,11 @@ CHECKS: dict[str, tuple[str, str, str, str, str]] = {
         "after DCE, only tags differ after the tag-adding steps, all nodes lowered after "
         "preprocessing, idempotence) via hash-consing classes computed by TLC. The harness "
         "compares a reflective structural snapshot of the input and the bytes of wrapped data "
-        "before/after every step.",
+        "before/after every step. Graphs with traced function calls go through the "
+        "transformations that support them; a directed family whose value at NON-FINITE inputs "
+        "differs from exact algebra (0*inf, x-x, x/x) is additionally EXECUTED (generated C "
+        "code) before/after each transformation on inputs with inf / NaN / signed zeros; "
+        "compute_order of preprocess must be a permutation of the output names.",
         "Trusted: TLC, the reflective exporter. Values are exact in GF(10007) with "
         "uninterpreted functions under 2 injective valuations (Schwartz-Zippel for arithmetic "
         "identities). Programs are sampled (not exhaustive); symbolic shapes and loopy calls "
@@ -168,7 +172,10 @@ CHECKS: dict[str, tuple[str, str, str, str, str]] = {
         "real executor runs under a controlled scheduler on random schedules and, for the small "
         "instances, on ALL schedules (DFS re-execution); outputs are compared with the "
         "unpartitioned global graph, every run's event trace is validated by DistTrace.tla, and "
-        "the set of global states the real executor reaches must equal TLC's reachable set.",
+        "the set of global states the real executor reaches must equal TLC's reachable set. "
+        "Waitsome reports completed indices in varying order (ascending / descending / rotated), "
+        "and every program is also executed three times in a row on ONE partition object (time "
+        "stepping) under a random schedule.",
         "Trusted: TLC; the simulated MPI (non-overtaking per (source, tag), buffered Isend, "
         "rendezvous Wait, arbitrary non-empty Waitsome subsets), not a real MPI. In the "
         "exhaustive-schedule stages part programs are a NumPy reference evaluator of the part "
@@ -264,7 +271,13 @@ CHECKS: dict[str, tuple[str, str, str, str, str]] = {
         "map_* frames, wrapped cache add/retrieve) and its observed final state must be one of "
         "the model's; every recorded event trace (incl. depth-60 ladders with 2^60 paths and 30 "
         "mapper-based public functions) is validated against PtMapper's actions by "
-        "PtMapperTrace; nodes reached are compared with an independent reflective walk.",
+        "PtMapperTrace; nodes reached are compared with an independent reflective walk. Function "
+        "definitions: PtFnCache.tla (one function cache per mapper family, shared by the "
+        "clone_for_callee clones; OncePerDefinition, AllReached, Linear) is model-checked over "
+        "every call DAG of <= 4 definitions, the deviation 'fresh cache per body' must be "
+        "refuted, and the function-definition events of every entry point on nested / "
+        "Fibonacci / diamond call DAGs and traced programs are replayed through its actions by "
+        "PtFnCacheTrace.",
         "Trusted: TLC, the sys.setprofile recorder (a mapper that visits a node without rec / "
         "map_* is invisible), the reflective walk over dataclass fields. Real instances are "
         "structural (never evaluated). Some mapper classes are only observed inside their entry "
